@@ -1,19 +1,21 @@
 (* C09 - the parser's PARSE-TIME COPY of every list and the transpile-time folding of len().
 
    parser.py keeps, for every list name bound to a literal, a Python list in its constant environment
-   (`vars[name]`); `len(name)` is folded to the length of that copy (_to_c_expr/_literal_length, parser.py 368-385,
-   838-843) whenever the copy exists, and is emitted as the run-time `__redu_len(name)` otherwise.  The copy is
-   updated while the script is parsed ONCE, top to bottom (parser.py 4147-4183):
+   (`vars[name]`); `len(name)` is folded to the length of that copy (_to_c_expr/_literal_length) whenever the copy
+   exists, and is emitted as the run-time `__redu_len(name)` otherwise.  The copy is updated while the script is
+   parsed ONCE, top to bottom.  Since the repair of the stale-len findings (fix: constant environment) -
      x = [c1, .., cn]          copy := [c1, .., cn]
      x = [.. for ..]           no copy (an expression string)
-     x.append(e)               copy := copy ++ [v]   v = the constant value of e, or the placeholder None when e is
-                               not a parse-time constant (a run-time scalar, any subscript `y[i]`)
+     x.append(e)               e a parse-time constant: copy := copy ++ [v];  otherwise (a run-time scalar, any
+                               subscript `y[i]`) the name LOSES its copy (it is a run-time value from here on)
      x.remove(e)               e constant and in the copy: its first occurrence is removed; e constant and not in
-                               the copy: nothing; e not constant: the FIRST element of the copy is dropped (pop(0))
+                               the copy: nothing; e not constant: the name loses its copy
      x = x   /   x1, .., xn = y1, .., yn     the targets lose their copy (bound to expression strings)
-   Statements inside an `if` are parsed with a SHALLOW copy of the environment: append / remove mutate the shared
-   list object (the copy changes as if the branch were taken), a re-binding stays local to the branch (the outer
-   copy survives although the branch may run).
+   A statement inside an `if` is parsed with a PRIVATE copy of the environment and of the tracked lists; after the
+   `if` every name the statement writes loses its copy in the enclosing environment (_forget_names).
+   Before the body of `while True:` is parsed, every name the body writes (at any depth) loses its copy: the body is
+   parsed once and runs in every pass.
+   A function body never folds a name the script binds or mutates at more than one site (ctx["_rebound_names"]).
 
    A list script of this layer: the statements of DListProg plus run-time scalar arguments `c + off` (c = the value
    read from a sensor at the top of every pass) and reads `x[len(y) + k]`, `x[k - len(y)]`.  The firmware run uses
@@ -80,17 +82,34 @@ Definition t_remove (cur : tcopy) (a : option Z) : tcopy :=
 
 Definition t_untrack (xs : list name) (t : tenv) : tenv := fold_left (fun t x => t_set x None t) xs t.
 
-(* one statement; [gated]: it is the body of an `if` *)
+(* the names a statement binds or mutates (_written_names) *)
+Definition swrites (s : tstmt) : list name :=
+  match s with
+  | TDeclLit x _ | TDeclComp x _ | TAppend x _ | TRemove x _ | TSelf x => [x]
+  | TPerm xs _ => xs
+  | TGet _ _ | TCallGet _ _ | TGetLen _ _ _ _ | TCallLen _ _ _ _ _ => []
+  end.
+
+(* one statement; [gated]: it is the body of an `if` - parsed on a private copy, what it writes is forgotten afterwards *)
 Definition track1 (gated : bool) (t : tenv) (s : tstmt) : tenv :=
+  if gated then t_untrack (swrites s) t else
   match s with
   | TDeclLit x items => t_set x (Some (map Some items)) t
   | TDeclComp x _ => t_set x None t
   | TAppend x a =>
-      match t_cur t x with Some cur => t_set x (Some (cur ++ [targ_val t a])) t | None => t end
+      match t_cur t x, targ_val t a with
+      | Some cur, Some v => t_set x (Some (cur ++ [Some v])) t
+      | Some _, None => t_set x None t
+      | None, _ => t
+      end
   | TRemove x a =>
-      match t_cur t x with Some cur => t_set x (Some (t_remove cur (targ_val t a))) t | None => t end
-  | TSelf x => if gated then t else t_set x None t
-  | TPerm xs _ => if gated then t else t_untrack xs t
+      match t_cur t x, targ_val t a with
+      | Some cur, Some v => t_set x (Some (t_remove cur (Some v))) t
+      | Some _, None => t_set x None t
+      | None, _ => t
+      end
+  | TSelf x => t_set x None t
+  | TPerm xs _ => t_untrack xs t
   | TGet _ _ | TCallGet _ _ | TGetLen _ _ _ _ | TCallLen _ _ _ _ _ => t
   end.
 
@@ -102,6 +121,15 @@ Definition track1 (gated : bool) (t : tenv) (s : tstmt) : tenv :=
    parser.py 927-960): at the FIRST call in source order whose argument types ask for it, with the environment [td] of that
    call site, and never again. *)
 Definition fn_env (td : tenv) (params : list name) : tenv := t_untrack params td.
+
+(* ctx["_rebound_names"]: the names with more than one binding / mutation site in the whole script; a function body is
+   parsed with these forgotten (whichever call triggers the parse) *)
+Definition sites (setup : list tstmt) (body : list (tstmt * option Z)) : list name :=
+  flat_map swrites setup ++ flat_map (fun sg => swrites (fst sg)) body.
+Definition rebound (setup : list tstmt) (body : list (tstmt * option Z)) : list name :=
+  filter (fun x => (1 <? count_occ Z.eq_dec (sites setup body) x)%nat) (sites setup body).
+(* the names the body of `while True:` writes: forgotten before the body is parsed *)
+Definition body_writes (body : list (tstmt * option Z)) : list name := flat_map (fun sg => swrites (fst sg)) body.
 
 Definition same_fn (a b : tstmt) : bool :=
   match a, b with
@@ -212,20 +240,27 @@ Fixpoint tf_block (in_loop : bool) (c : Z) (fe : tstmt -> tenv) (t : tenv) (decl
       else tf_block in_loop c fe t1 d1 st r
   end.
 
-Definition tf_pass (c : Z) (t : tenv) (decl : list name) (body : list gstmt) (st : fstate) : res (fstate * list Z) :=
-  do a <- tf_block true c (first_env t body) t decl st body; let '(st1, o) := a in
+(* the environment the function called by [s] is parsed in: the copies in front of its first call, minus the rebound names *)
+Definition fn_first (rb : list name) (t : tenv) (body : list gstmt) (s : tstmt) : tenv := t_untrack rb (first_env t body s).
+
+Definition tf_pass (rb : list name) (c : Z) (t : tenv) (decl : list name) (body : list gstmt) (st : fstate) : res (fstate * list Z) :=
+  do a <- tf_block true c (fn_first rb t body) t decl st body; let '(st1, o) := a in
   Safe (mkf (f_heap st1) (f_glob st1) [], o).
 
-Fixpoint tf_passes (t : tenv) (decl : list name) (body : list gstmt) (st : fstate) (cs : list Z) : res fstate :=
+Fixpoint tf_passes (rb : list name) (t : tenv) (decl : list name) (body : list gstmt) (st : fstate) (cs : list Z) : res fstate :=
   match cs with
   | [] => Safe st
-  | c :: r => do a <- tf_pass c t decl body st; tf_passes t decl body (fst a) r
+  | c :: r => do a <- tf_pass rb c t decl body st; tf_passes rb t decl body (fst a) r
   end.
+
+(* the copies the body of `while True:` is parsed with: those of the end of setup(), minus what the body writes *)
+Definition loop_env (t0 : tenv) (body : list gstmt) : tenv := t_untrack (body_writes body) t0.
 
 (* setup() then one pass of loop() per run-time value *)
 Definition run_fw_t (setup : list tstmt) (body : list gstmt) (cs : list Z) : res fstate :=
   let '(t0, d0) := track false [] [] (ungated setup) in
-  do a <- tf_block false 0 (fun _ => []) [] [] f_init (ungated setup); tf_passes t0 d0 body (fst a) cs.
+  do a <- tf_block false 0 (fun _ => []) [] [] f_init (ungated setup);
+  tf_passes (rebound setup body) (loop_env t0 body) d0 body (fst a) cs.
 
 (* ------------------------------------------------------------------ CPython: len() of the list as it is *)
 Definition p_len (pst : pstate) (y : name) : pres Z :=
@@ -265,12 +300,13 @@ Definition run_py_t (setup : list tstmt) (body : list gstmt) (cs : list Z) : pre
 
 (* ------------------------------------------------------------------ the guard *)
 (* [len_ok]: the single-owner shapes of DListProg (declarations before the loop under fresh names, then append /
-   remove / reads / `x = x` / permutations), and
-   - only reads stand under a run-time condition,
-   - every remove whose argument is a parse-time constant finds that constant in the copy (so the copy shrinks
-     exactly when the list does),
-   - the copies have the same lengths at the end of the loop body as at its beginning (a copy that exists when the
-     loop is entered still exists at its end). *)
+   remove / reads / `x = x` / permutations - since the repair also under run-time conditions), and three clauses the
+   repaired parser satisfies by construction; they are kept as CHECKED clauses (evaluated by the extracted model on
+   every generated program, never observed false) because the theorem is proved from them:
+   - every remove whose argument is a parse-time constant finds that constant in the copy (else CPython raises),
+   - the copies the loop body is parsed with have the same lengths at the end of the body (only names the body does
+     not write have one),
+   - a global list a function body folds has, at every call, a copy of the length it had at the first call. *)
 Definition is_read (s : tstmt) : bool :=
   match s with TGet _ _ | TCallGet _ _ | TGetLen _ _ _ _ | TCallLen _ _ _ _ _ => true | _ => false end.
 
@@ -302,7 +338,7 @@ Definition is_call_len (s : tstmt) : bool := match s with TCallLen _ _ _ _ _ => 
 Definition t_use_ok (fe : tstmt -> tenv) (decl : list name) (t : tenv) (sg : gstmt) : bool :=
   let '(s, g) := sg in
   negb (is_decl s) && use_ok decl (t_lstmt true decl s 0 0) &&
-  (negb (is_gated g) || is_read s) && remove_hits t s &&
+  (is_gated g || remove_hits t s) &&
   match s with
   | TGetLen _ y _ _ => mem y decl
   | TCallLen _ p y _ _ => Z.eqb y p || (mem y decl && fold_agrees (fe s) t y)
@@ -336,28 +372,30 @@ Definition t_compat (t0 t1 : tenv) : bool :=
 
 Definition len_ok (setup : list tstmt) (body : list gstmt) : bool :=
   let '(t0, d0) := track false [] [] (ungated setup) in
-  t_setup_ok [] [] (ungated setup) && t_body_ok (first_env t0 body) t0 d0 body && t_compat t0 (fst (track true t0 d0 body)).
+  let t1 := loop_env t0 body in
+  t_setup_ok [] [] (ungated setup) && t_body_ok (fn_first (rebound setup body) t1 body) t1 d0 body &&
+  t_compat t1 (fst (track true t1 d0 body)).
 
 (* ------------------------------------------------------------------ witnesses *)
 Local Open Scope Z_scope.
 (* a = [1, 2, 3]   while True: (if c > 5: a.append(9));  mon.write(a[len(a) - 1]);  (if c > 5: a.remove(9))
-   readings 0, 0, 0: the copy has 4 entries at the read although the branch never runs *)
+   (finding F-C09-stale-len-out-of-bounds, repaired: a is written in the body, len(a) is read at run time) *)
 Definition stale_branch_setup : list tstmt := [TDeclLit 0 [1; 2; 3]%Z].
 Definition stale_branch_body : list gstmt :=
   [(TAppend 0 (TConst 9), Some 5%Z); (TGetLen 0 0 true (-1), None); (TRemove 0 (TConst 9), Some 5%Z)].
 
 (* a = [1, 2, 3, 4, 5]   while True: a.remove(a[0]); mon.write(a[len(a) - 1])
-   the body is parsed once: len(a) is 4 in every pass, the list has 3 elements in the second *)
+   (finding F-C09-stale-len-later-pass-out-of-bounds, repaired) *)
 Definition stale_pass_setup : list tstmt := [TDeclLit 0 [1; 2; 3; 4; 5]%Z].
 Definition stale_pass_body : list gstmt := ungated [TRemove 0 (TElem 0 0); TGetLen 0 0 true (-1)].
 
 (* a = [1, 2, 3]; b = [4]   while True: (if c > 0: a, b = b, a); mon.write(a[len(a) - 1])
-   the re-binding inside the branch does not reach the outer environment: len(a) stays 3, a has 1 element *)
+   (finding F-C09-stale-len-rebind-in-branch-out-of-bounds, repaired) *)
 Definition stale_rebind_setup : list tstmt := [TDeclLit 0 [1; 2; 3]%Z; TDeclLit 1 [4]%Z].
 Definition stale_rebind_body : list gstmt := [(TPerm [0; 1] [1; 0]%Z, Some 0%Z); (TGetLen 0 0 true (-1), None)].
 
 (* a = [1, 2, 3]   while True: a.remove(c); a.remove(1); mon.write(a[len(a) - 1]); a.append(1); a.append(c)
-   c = 3: remove(c) drops the FIRST entry (1) of the copy, remove(1) then finds nothing: copy 2 entries, list 1 *)
+   (finding F-C09-stale-len-runtime-remove-pops-first-out-of-bounds, repaired) *)
 Definition stale_pop_setup : list tstmt := [TDeclLit 0 [1; 2; 3]%Z].
 Definition stale_pop_body : list gstmt :=
   ungated [TRemove 0 (TRt 0); TRemove 0 (TConst 1); TGetLen 0 0 true (-1); TAppend 0 (TConst 1); TAppend 0 (TRt 0)].
@@ -373,8 +411,7 @@ Definition len_ok_body : list gstmt :=
 
 (* a = [1, 2, 3];  def h(P): return P[len(a) - 1]
    while True: r = h(a); mon.write(r); a.remove(c); r = h(a); mon.write(r); a.append(c)   c = 2
-   len(a) inside the function is folded where the function is parsed: at its FIRST call (3); at the second call the
-   list has 2 elements *)
+   (finding F-C09-stale-len-function-first-call-out-of-bounds, repaired: a has more than one write site) *)
 Definition stale_def_setup : list tstmt := [TDeclLit 0 [1; 2; 3]%Z].
 Definition stale_def_body : list gstmt :=
   ungated [TCallLen 0 5 0 true (-1); TRemove 0 (TRt 0); TCallLen 0 5 0 true (-1); TAppend 0 (TRt 0)].
